@@ -176,7 +176,7 @@ class C11(Suite):
     case_ty = "case"
     obs_ty = "obs"
     kf = "kf"
-    kf_ids = {1: "F4b", 2: "F4c", 3: "F4d", 4: "F4e"}
+    kf_ids = {2: "F4c", 4: "F4e"}
     corr = ("paths.py InvPath/SequencePath/AlternativePath/MulPath/NegatedPath.eval, eval_path; Graph.triples, "
             "Graph.subjects/objects/subject_objects, ConjunctiveGraph.triples; SPARQL route: parser Path grammar, "
             "algebra.translatePath, evaluate.evalBGP")
@@ -425,7 +425,7 @@ class C11H(Suite):
     oeq = "hobs_eqb"
     spec = "hspec_ok"
     kf = "hkf"
-    kf_ids = {1: "F4b", 2: "F4c", 3: "F4d", 4: "F4e"}
+    kf_ids = {2: "F4c", 4: "F4e"}
     corr = ("Graph.triples / subjects / objects / SPARQL evaluation of path patterns on one Graph object between "
             "Graph.add / Graph.remove / SPARQL Update calls (answers must follow the data)")
     quick_n = 700
